@@ -929,16 +929,21 @@ func (x *c09Run) readFamily(thorough bool) {
 		encs   []string
 		full   int
 	}
-	fullBin, fullJSON := 12, 12
+	// delivered prefixes up to this length get ALL their compositions
+	fullRdm, fullPdec, fullJSON := 12, 12, 12
 	if thorough {
-		fullBin, fullJSON = 18, 16
+		fullRdm, fullPdec, fullJSON = 18, 17, 15
 	}
 	targets := []tgt{
-		{"rdm", []string{"penc"}, fullBin},
-		{"pdec", []string{"wdm"}, fullBin},
+		{"rdm", []string{"penc"}, fullRdm},
+		{"pdec", []string{"wdm"}, fullPdec},
 		{"jdec", []string{"compact-nl", "compact-cat", "jenc"}, fullJSON},
 	}
+	x.r.Extra["all_compositions_up_to_bytes"] = map[string]int{"rdm": fullRdm, "pdec": fullPdec, "jdec": fullJSON}
 	seqs := c09Sequences()
+	seen := map[string]bool{}
+	var dedup int64
+	defer func() { x.r.Extra["delivered_prefixes_shared_with_an_earlier_stream_skipped"] = dedup }()
 	for _, tg := range targets {
 		for _, enc := range tg.encs {
 			for _, msgs := range seqs {
@@ -974,6 +979,19 @@ func (x *c09Run) readFamily(thorough bool) {
 						if cut == n {
 							maxParts = 3
 						}
+						// What a reader does depends only on the bytes delivered and on the
+						// script, not on what the writer would have sent afterwards: a
+						// delivered prefix shared with an earlier stream is not repeated.
+						mode := 0
+						if cut > tg.full {
+							mode = maxParts
+						}
+						key := fmt.Sprintf("%s|%d|%d|%q", tg.target, mode, len(zeroStates), st.Bytes[:cut])
+						if seen[key] {
+							dedup++
+							continue
+						}
+						seen[key] = true
 						c09Comps(cut, tg.full, maxParts, func(chunks []int) {
 							for _, end := range ends {
 								if cut == 0 && strings.HasSuffix(end, "+") {
